@@ -72,8 +72,19 @@ var (
 // Describe records, for the evidence file, how cases are generated and what makes one
 // non-trivial, and what the check assumes.
 func Describe(rule string, assume ...string) {
-	ruleText = rule
+	ruleText = rule + ruleMore
 	assumptions = assume
+}
+
+var ruleMore string
+
+// DescribeMore appends the description of a further sub-check to the rule (in whatever order the init
+// functions of the package run).
+func DescribeMore(rule string) {
+	ruleMore += " " + rule
+	if ruleText != "" {
+		ruleText += " " + rule
+	}
 }
 
 // Register adds one generated check. gen draws a JSON-serialisable case from rapid,
